@@ -6,14 +6,16 @@ Engine B, differential across *separate interpreter processes*.  A child process
 seeds and one parameter set and prints, per seed, the model and digests of its answers to a fixed
 request battery in every session plus SecurityAccess / reset histories.  The same batch is produced in
 several process environments (PYTHONHASHSEED 0 / 1 / 4242 / random, two import orders, two wall-clock
-bases and request spacings) - one work item per (batch, environment) - and finish() compares every
+bases and request spacings, plus the reference environment a second time) - one work item per (batch, environment) - and finish() compares every
 environment with the reference environment: models equal, all answer digests equal.  SecurityAccess
 seeds (deliberately fresh) are masked.  On a mismatch the two children are re-run with full transcripts
 to name the first differing request.
 
 The reference environment's model of every (parameter set, seed) is also checked against the graph
 clauses: mandatory sessions and services present, every offered session reachable from session 1 and
-able to return to it, no transition into a session that is not offered, setup() twice gives one model.
+able to return to it, no transition into a session that is not offered; and against restart-like situations
+inside one process: a second server from the same parameters object, setup() again on the same server and a
+server from a fresh parameters object all give the first model, and setup() leaves the parameters object untouched.
 """
 
 from __future__ import annotations
@@ -34,7 +36,8 @@ RULE = (
     "bytes and the model's sub-functions with/without suppress bit, structured ISO "
     "requests, requests serialised by gallia's request classes - in each offered session, reached by "
     "DiagnosticSessionControl from session 1 on a fresh server, + SecurityAccess unlock / wrong key / reset "
-    "histories) compared with the transcript of the reference environment. evaluations = answer lines compared; "
+    "histories + 'requestSeed [; TesterPresent] ; X' and 'unlocked ; X' for a representative request X of every "
+    "offered service) compared with the transcript of the reference environment. evaluations = answer lines compared; "
     "distinct_nontrivial = distinct (parameter set, seed) models plus distinct answer-block digests, i.e. cases "
     "whose transcript is not shared with any other case."
 )
@@ -64,8 +67,9 @@ ENVS_QUICK = [
     ("orderB", "0", "B", 0, "import-order"),
     ("clock1", "0", "A", 1, "clock"),
     ("all", "random", "B", 1, "combined"),
+    ("repeat", "0", "A", 0, "repeat"),  # the reference environment once more: any difference is plain nondeterminism
 ]
-ENVS_THOROUGH = [("ref", "0", "A", 0, "-")] + [
+ENVS_THOROUGH = [("ref", "0", "A", 0, "-"), ("repeat", "0", "A", 0, "repeat")] + [
     (f"h{h}-o{o}-c{c}", h, o, c, "hashseed" if (o, c) == ("A", 0) else ("import-order" if (h, c) == ("0", 0) else ("clock" if (h, o) == ("0", "A") else "combined")))
     for h in ("0", "1", "4242", "random")
     for o in ("A", "B")
@@ -156,11 +160,34 @@ def _child(spec: dict[str, Any]) -> None:
     vc.G["service"] = service  # for the codec driven generator only; no harness seams in the child
     target = TargetURI(TARGET)
 
-    def new_server() -> Any:
-        cfg = vecu.RngVirtualECUConfig(target=target, seed=seed, **params)
+    def new_server(cfg: Any = None) -> Any:
+        if cfg is None:
+            cfg = vecu.RngVirtualECUConfig(target=target, seed=seed, **params)
         srv = vecu.RngVirtualECU(cfg)._server()
         vc.drive(srv.setup())
         return srv, S.TCPUDSServerTransport(srv, target)
+
+    def cfg_dump(cfg: Any) -> dict[str, str]:
+        return {k: repr(getattr(cfg, k, None)) for k in sorted(type(cfg).model_fields) if k != "init_kwargs"}
+
+    def same_process_variants(model: Any) -> dict[str, Any]:
+        """restart-like situations inside one process, all of which must give the model of the first server:
+        a second server built from the *same* parameters object, setup() called again on the same server, a server
+        from a fresh parameters object; and setup() must leave the parameters object as it was."""
+        cfg = vecu.RngVirtualECUConfig(target=target, seed=seed, **params)
+        before = cfg_dump(cfg)
+        first, _ = new_server(cfg)
+        after_first = cfg_dump(cfg)
+        second, _ = new_server(cfg)
+        vc.drive(first.setup())
+        fresh, _ = new_server()
+        after = cfg_dump(cfg)
+        return {
+            "second_server_same_params": dump(second) == model,
+            "setup_twice_same_server": dump(first) == model,
+            "fresh_params_object": dump(fresh) == model,
+            "params_changed_by_setup": sorted(k for k in before if before[k] != after_first.get(k) or before[k] != after.get(k)),
+        }
 
     def dump(srv: Any) -> dict[str, dict[str, list[int] | None]]:
         return {
@@ -191,9 +218,9 @@ def _child(spec: dict[str, Any]) -> None:
     for seed in seeds:
         srv, tr = new_server()
         model = dump(srv)
-        srv_again, _ = new_server()
+        same_process = same_process_variants(model)
         if model_only:
-            out.append({"seed": seed, "model": model, "setup_twice_same_model": dump(srv_again) == model, "blocks": {}, "n_lines": 0})
+            out.append({"seed": seed, "model": model, "same_process": same_process, "blocks": {}, "n_lines": 0})
             continue
         m = ref.Model({int(s, 16): {int(k, 16): v for k, v in d.items()} for s, d in model.items()})
         gen, _notes = vc.codec_generated()
@@ -261,10 +288,60 @@ def _child(spec: dict[str, Any]) -> None:
                 name = f"security@{sess:02x}/{t:02x}"
                 blocks[name] = hashlib.sha256("\n".join(lines).encode()).hexdigest()
                 lines_all[name] = lines
+        # Histories "positive requestSeed, then at once a request the service handlers answer": the fresh seed is
+        # masked, everything after it must not depend on it.  Per session that offers SecurityAccess, for every
+        # representative request of every offered service: 27 <odd> ; X  and  27 <odd> ; 3E 00 ; X  - and all of
+        # them again after a successful unlock.
+        sa_sessions = [x for x in sorted(m.services, key=lambda x: (x != 1, x)) if any(t % 2 == 1 for t in (m.services[x].get(0x27) or ()))]
+        if max_sessions:
+            sa_sessions = sa_sessions[:max_sessions]
+        for sess in sa_sessions:
+            p = path_to(sess)
+            if p is None:
+                continue
+            offered = m.services[sess]
+            reps = [q for q in dict.fromkeys(vc.structured(m) + gen) if q[0] in offered and q[0] not in (0x10, 0x27)]
+            reps += [bytes([0x11, sf]) for sf in sorted(set((offered.get(0x11) or ())[:3]) | ({4} & set(offered.get(0x11) or ())))]
+            reps += [bytes([sid, sf, 0x12, 0x34]) for sid in (0x31,) if sid in offered for sf in (1, 2, 3)]
+            reps = list(dict.fromkeys(reps))
+            reps.sort(key=lambda q: q[0] == 0x11)  # resetting requests last
+            for t in [x for x in (offered.get(0x27) or ()) if x % 2 == 1][:2]:
+                srv, tr = new_server()
+                lines = []
+
+                def goto() -> None:
+                    if srv.state.session != sess:
+                        if srv.state.session != 1:
+                            ask(tr, bytes.fromhex("1001"))
+                        for x in p:
+                            ask(tr, bytes([0x10, x]))
+
+                for tp in (False, True):
+                    for q in reps:
+                        goto()
+                        r, shown = ask(tr, bytes([0x27, t]))
+                        line = f"27{t:02x} {shown}"
+                        if tp:
+                            line += f" ; 3e00 {ask(tr, bytes.fromhex('3e00'))[1]}"
+                        lines.append(f"{line} ; {q[:6].hex()} {ask(tr, q)[1]}")
+                goto()
+                seedb = b""
+                for _ in range(64):
+                    r, shown = ask(tr, bytes([0x27, t]))
+                    if r is not None and r[:1] == b"\x67" and len(r) > 2:
+                        seedb = r[2:]
+                        break
+                lines.append(f"27{t + 1:02x}<seed> {ask(tr, bytes([0x27, t + 1]) + seedb, deliberate=True)[1]}")
+                lines.append(f"STATE session={srv.state.session} level={srv.state.security_access_level}")
+                for q in reps:
+                    lines.append(f"unlocked ; {q[:6].hex()} {ask(tr, q)[1]}")
+                name = f"seed-then@{sess:02x}/{t:02x}"
+                blocks[name] = hashlib.sha256("\n".join(lines).encode()).hexdigest()
+                lines_all[name] = lines
         doc: dict[str, Any] = {
             "seed": seed,
             "model": model,
-            "setup_twice_same_model": dump(srv_again) == model,
+            "same_process": same_process,
             "blocks": blocks,
             "n_lines": sum(len(v) for v in lines_all.values()),
         }
@@ -319,6 +396,19 @@ def _strip(problem: str) -> str:
     return problem.split(":")[0]
 
 
+def _same_process_problems(sp: dict[str, Any]) -> list[tuple[str, str]]:
+    out: list[tuple[str, str]] = []
+    if not sp["second_server_same_params"]:
+        out.append(("model|second-server-from-same-parameters-object-differs", "a second server built from the same parameters object has another model than the first"))
+    if not sp["setup_twice_same_server"]:
+        out.append(("model|setup-twice-differs", "setup() called again on the same server changes its model"))
+    if not sp["fresh_params_object"]:
+        out.append(("model|second-server-from-fresh-parameters-differs", "a later server in the same process (fresh parameters object) has another model than the first"))
+    for f in sp["params_changed_by_setup"]:
+        out.append((f"parameters-changed-by-setup|field={f}", f"setup() modified the caller's parameters object: field {f}"))
+    return out
+
+
 def _plabel(pname: str) -> str:
     """parameter set as it appears in signatures: the overlapping-list variants are one family."""
     return "overlapping-lists" if pname.startswith("overlap-") else pname
@@ -354,8 +444,9 @@ def run_item(item: tuple[Any, ...]) -> Any:
         rp = {"kind": "model", "pname": pname, "params": params, "seed": d["seed"]}
         for prob in ref.session_graph_ok(m, mand_sessions, mand_services):
             res.violate(f"C16|model|{_strip(prob)}|params={_plabel(pname)}", f"seed {d['seed']} params {pname}: {prob}; model {d['model']}", rp)
-        if not d["setup_twice_same_model"]:
-            res.violate(f"C16|model|setup-twice-differs|params={_plabel(pname)}", f"seed {d['seed']}: two setups in one process give different models", rp)
+        for sig, msg in _same_process_problems(d["same_process"]):
+            res.violate(f"C16|{sig}", f"seed {d['seed']} params {pname}: {msg}", rp)
+        res.count("same_process_variants", 3)
         res.count("models_checked")
         res.notes.setdefault("sessions_histogram", {})[str(len(m.services))] = 1
         if d["seed"] == 3 and pname == "default":
@@ -410,12 +501,14 @@ def finish(merged: Any, tier: str) -> dict[str, Any]:
     for (pname, seed_s), labels in sorted(differing.items(), key=lambda kv: (kv[0][0], int(kv[0][1]))):
         refd = tr[f"{pname}|{seed_s}|ref"]
         axes = {by_env[lb][4] for lb in labels}
-        if {"hashseed", "import-order", "clock"} <= axes:
+        if "repeat" in axes:
+            axis = "identical-environment"  # not even two runs of the same environment agree
+        elif {"hashseed", "import-order", "clock"} <= axes:
             axis = "any-two-processes"
         else:
             axis = "+".join(sorted(axes - {"combined"})) or "combined"
         # the environment that isolates the axis, if there is one
-        label = next((lb for lb in labels if by_env[lb][4] != "combined"), labels[0])
+        label = "repeat" if "repeat" in labels else next((lb for lb in labels if by_env[lb][4] != "combined"), labels[0])
         env = by_env[label]
         kind = "model-differs" if tr[f"{pname}|{seed_s}|{label}"]["model"] != refd["model"] else "answers-differ"
         lk = (kind, axis)
@@ -453,8 +546,8 @@ def replay(doc: dict[str, Any]) -> Any:
         m = ref.Model({int(s, 16): {int(k, 16): v for k, v in dd.items()} for s, dd in d["model"].items()})
         for prob in ref.session_graph_ok(m, params.get("mandatory_sessions", [1]), params.get("mandatory_services", [0x10])):
             res.violate(f"C16|model|{_strip(prob)}|params={_plabel(pname)}", prob, doc)
-        if not d["setup_twice_same_model"]:
-            res.violate(f"C16|model|setup-twice-differs|params={_plabel(pname)}", "two setups differ", doc)
+        for sig, msg in _same_process_problems(d["same_process"]):
+            res.violate(f"C16|{sig}", msg, doc)
         return res
     env = tuple(doc["env"])
     what, text = _first_difference(pname, params, seed, ENVS_QUICK[0], env, doc.get("max_sessions"), doc.get("model_only", False))
